@@ -223,8 +223,10 @@ func (fr *Frame) applyContract(st *State, site ssa.Instruction, c *Contract, fn 
 		}
 	}
 	if fr.top {
+		fr.cnt["callghost:"+fn.Name()]++
 		for n, t := range se2.ghostLocal {
 			st.ghosts[fn.Name()+"_"+n] = t
+			st.ghosts[fmt.Sprintf("%s_%s_%d", fn.Name(), n, fr.cnt["callghost:"+fn.Name()])] = t
 		}
 	}
 	for _, e := range c.Ensures {
